@@ -16,7 +16,7 @@ pub fn meta(tier: &str) -> CheckMeta {
     let (k, full) = params(tier);
     CheckMeta {
         id: "C06", level: "model_checking",
-        rule: "E-box: for every tree (seeds + all strings of <=k lexemes of every zoo language, valid and erroneous; trees after one edit+re-parse; wide documents with 250..300 raw children; multi-line and zero-width nodes) and for EVERY node and EVERY argument: child/named_child/parent/siblings/field lookups/first_child_for_byte/descendant_for_byte+point_range/child_with_descendant/descendant_count/to_sexp and all cursor moves (first/last child, next/previous sibling, parent, goto_descendant from every position, first_child_for_byte/point, depth, descendant_index, field, reset, reset_to, cursors rooted at inner nodes) compared with the explicit tree from one cursor walk. Non-trivial = tree with more than 3 nodes.",
+        rule: "E-box: for every tree (seeds + all strings of <=k lexemes of every zoo language, valid and erroneous; trees after one edit+re-parse; trees parsed with 4-5 included-range lists per document (holes inside and between nodes); wide documents with 250..300 raw children; multi-line and zero-width nodes) and for EVERY node and EVERY argument: child/named_child/parent/siblings/field lookups/first_child_for_byte/descendant_for_byte+point_range/child_with_descendant/descendant_count/to_sexp and all cursor moves (first/last child, next/previous sibling, parent, goto_descendant from every position, first_child_for_byte/point, depth, descendant_index, field, reset, reset_to, cursors rooted at inner nodes) compared with the explicit tree from one cursor walk. Non-trivial = tree with more than 3 nodes.",
         assumptions: vec!["descendant_for_*_range is asserted up to the zero-width ambiguity the documentation leaves open".into()],
         exhaustive: true,
         bounds: json!({"start_doc_lexemes_k": k, "full_range_enumeration_up_to_bytes": full, "wide_children": [250,251,252,253,254,255,256,257,300]}),
@@ -87,7 +87,9 @@ fn mask_unexpected(s: &str) -> String {
         out.push_str("(UNEXPECTED _)");
         let after = &rest[p + 12..];
         // the character is rendered as 'c', '\\x', INVALID or a decimal number, followed by ')'
-        let end = if after.starts_with('\'') { let q = if after[1..].starts_with('\\') { 3 } else { 2 }; q + 1 } else { after.find(')').unwrap_or(after.len()) };
+        // ('\0' '\n' '\t' '\r' are four characters long; every other quoted character, the backslash and the quote included, three)
+        let b = after.as_bytes();
+        let end = if after.starts_with('\'') { if b.len() >= 4 && b[1] == b'\\' && matches!(b[2], b'0' | b'n' | b't' | b'r') && b[3] == b'\'' { 4 } else { 3 } } else { after.find(')').unwrap_or(after.len()) };
         let end = end.min(after.len());
         rest = &after[end..];
         if rest.starts_with(')') { rest = &rest[1..]; }
@@ -432,10 +434,34 @@ pub fn worker(ctx: &Ctx, res: &mut ShardResult) {
                     run_one(&info, &nt, &t2, Some((d, &e)), full, res);
                 }
             }
+            // trees parsed with included ranges: nodes with excluded gaps inside and between them
+            if d.len() >= 3 && d.len() <= 24 {
+                for rl in ranged_lists(d.len()) {
+                    crate::case!("{}", ranged_case_json(z.name, d, &rl));
+                    let rs: Vec<tree_sitter::Range> = rl.iter().map(|&(s, e)| crate::checks::c13::mk_range(d, s, e)).collect();
+                    parser.set_included_ranges(&rs).unwrap();
+                    let t3 = parser.parse(d, None).unwrap();
+                    parser.set_included_ranges(&[]).unwrap();
+                    res.transitions += 1;
+                    res.states += 1;
+                    res.count("trees_parsed_with_included_ranges", 1);
+                    for (fp, msg) in check_tree(&info, d, &t3, full) { res.violation(&fp, format!("ranges {:?}: {}", rl, msg), ranged_case_json(z.name, d, &rl)); }
+                }
+            }
             if res.too_many() || ctx.out_of_time() { if ctx.out_of_time() { res.caps.push("wall-clock budget reached".into()); } return; }
         }
     }
 }
+
+/// a few range lists per document length: a hole in the middle, two holes, a late start, an early end
+fn ranged_lists(n: usize) -> Vec<Vec<(usize, usize)>> {
+    let (a, b, c) = (n / 3, n / 2, 2 * n / 3);
+    let mut v = vec![vec![(0, b), (b + 1, n)], vec![(1, n)], vec![(0, n - 1)], vec![(0, a), (c, n)]];
+    if n >= 6 { v.push(vec![(0, a), (a + 1, c), (c + 1, n)]); }
+    v
+}
+
+fn ranged_case_json(lang: &str, doc: &[u8], rl: &[(usize, usize)]) -> Value { json!({"lang": lang, "doc": crate::util::bytes_json(doc), "edit": Value::Null, "ranges": rl}) }
 
 fn run_one(info: &LangInfo, text: &[u8], tree: &Tree, origin: Option<(&[u8], &text::Edit)>, full: usize, res: &mut ShardResult) {
     res.transitions += 1;
@@ -459,6 +485,11 @@ pub fn replay(case: &Value) -> Vec<String> {
     let mut text = crate::util::bytes_from_json(&case["doc"]);
     let mut parser = Parser::new();
     parser.set_language(&info.language).unwrap();
+    if let Some(a) = case["ranges"].as_array() {
+        let rl: Vec<(usize, usize)> = a.iter().map(|r| (r[0].as_u64().unwrap() as usize, r[1].as_u64().unwrap() as usize)).collect();
+        let rs: Vec<tree_sitter::Range> = rl.iter().map(|&(s, e)| crate::checks::c13::mk_range(&text, s, e)).collect();
+        parser.set_included_ranges(&rs).unwrap();
+    }
     let mut tree = parser.parse(&text, None).unwrap();
     if !case["edit"].is_null() {
         let e = text::Edit::from_json(&case["edit"]);
